@@ -68,7 +68,7 @@ func (c04) Gen(r *rand.Rand, tier string, i int) any {
 	}
 	rule := p.Rules[target]
 	body := append([]gen.LitV{}, rule.Body...)
-	mode := r.Intn(15)
+	mode := r.Intn(16)
 	if mode == 14 {
 		// this perturbation is about aggregating rules: take one if the program has any
 		for t := range p.Rules {
@@ -225,6 +225,31 @@ func (c04) Gen(r *rand.Rand, tier string, i int) any {
 			l.Args = args
 			body[k] = l
 		}
+	case mode == 15:
+		// an equality between two function applications (a test, it binds nothing), placed anywhere in the body: over
+		// body variables (then the premise order decides whether both sides have values) or a variable nothing binds
+		vs := varsOfBody()
+		pickVar := func() gen.TermV {
+			if len(vs) == 0 || r.Intn(6) == 0 {
+				return c04FreshVar("", 40)
+			}
+			return gen.VarT(vs[r.Intn(len(vs))])
+		}
+		a, b := pickVar(), pickVar()
+		isNum := func(t gen.TermV) bool { return strings.HasPrefix(t.Name, "N") || strings.HasPrefix(t.Name, "U") }
+		var lt, rt gen.TermV
+		switch x := r.Intn(4); {
+		case x == 0 && isNum(a) && isNum(b):
+			lt, rt = gen.FnT("fn:plus", a, gen.ConstT(gen.Num(0))), gen.FnT("fn:plus", b, gen.ConstT(gen.Num(0)))
+		case x == 1:
+			lt, rt = gen.FnT("fn:pair", a, gen.ConstT(gen.Num(0))), gen.FnT("fn:pair", b, gen.ConstT(gen.Num(0)))
+		case x == 2:
+			lt, rt = gen.FnT("fn:list", a), gen.FnT("fn:list:cons", b, gen.ConstT(gen.ListV()))
+		default:
+			lt, rt = gen.FnT("fn:list", a), gen.FnT("fn:list", b)
+		}
+		k := r.Intn(len(body) + 1)
+		body = append(body[:k:k], append([]gen.LitV{{K: "eq", L: &lt, R: &rt}}, body[k:]...)...)
 	case mode == 14:
 		// a group key that is not a plain variable: a function expression over a key variable, a constant, a wildcard
 		if len(rule.Transforms) == 1 && len(rule.Transforms[0]) > 0 && rule.Transforms[0][0].Var == "" && len(rule.Transforms[0][0].Fn.Args) > 0 {
